@@ -196,6 +196,24 @@ CHECKS = {
              "pointers not generated).",
         technique="Lean 4 proof (laws of a small-step object model) + differential correspondence on generated call sequences",
         ref="DESIGN.md §6 C12"),
+    "C07": dict(
+        text="Lean 4 theorems (CbProps/C07.lean) on a value-tree model of the object graph (CbModel/Heap.lean: variables are "
+             "the children of one root tree, structs/arrays are nodes, access paths are direct or go through a pointer — "
+             "reference parameters, array parameters and self are pointers to the argument / receiver): read-after-write, "
+             "frame (a write leaves every non-overlapping cell unchanged), get_set_below, copy_independent (after dst = src "
+             "both hold the value and no later write inside either is visible through the other), alias_reads_agree, "
+             "alias_write_visible (a write through any access path is read through every other path to the same cell), "
+             "alias_write_visible_above, write_frame, by-value calls change nothing, shape stability (paths stay valid). "
+             "Tie: cbdriver c07 is the shadow heap; a fixed object graph (2 structs with scalar, nested-struct and array "
+             "members, struct, struct array, 2 int arrays, scalar, struct pointer, int pointer); matrix of 40 operation "
+             "kinds alone + random histories of 3..14 operations; after every operation every cell is read through 12 read "
+             "kinds (plain, ->, (*p)., *q, interpolation, getters, reference/array/by-value parameters).",
+        note="Specification-level model (the interpreter's two struct representations and their sync points are not "
+             "mirrored); the tie is differential. Access forms the interpreter rejects with an error are not generated. 6 "
+             "listed findings on the pinned tree; their operation kinds are excluded from the random histories and checked "
+             "as matrix cells.",
+        technique="Lean 4 proof (lens / aliasing laws of a value-tree heap) + differential correspondence against a shadow heap on generated operation histories",
+        ref="DESIGN.md §6 C07"),
     "C13": dict(
         text="Lean 4 theorems (CbProps/C13.lean) on the decision logic (CbModel/EnumM.lean): match selects arm i iff pattern i "
              "applies and no earlier one does; no applicable arm = no arm selected (error); a wildcard makes the match total; "
